@@ -461,7 +461,7 @@ func (dr *vC07Driver) runFam(f *vC07Fam) {
 
 func (dr *vC07Driver) replay(c vSx) {
 	if !c.isList() || len(c.l) < 2 || !c.l[0].isInt() || !c.l[1].isBytes() {
-		dr.k.record(c, vL(vZ(-1)), false)
+		// not a case of this harness (the corpus directory is shared by all C07 entries)
 		return
 	}
 	name := string(c.l[1].b)
@@ -497,10 +497,50 @@ func (dr *vC07Driver) replay(c vSx) {
 	// a case of another package's entry (shared corpus): not for this harness
 }
 
+// native fuzzing (coverage-guided search, run by hand: go test -fuzz '^FuzzVerifC07<Pkg>$'; not part
+// of ./check): the decoder table of the package is collected by calling its Test function in
+// collect mode, then (selector, input) pairs are fuzzed under the same recover + watchdog.
+var vC07Collect bool
+var vC07Decs []*vC07Dec
+
+func vC07FuzzTarget(f *testing.F, test func(*testing.T)) {
+	vC07Collect = true
+	test(&testing.T{})
+	vC07Collect = false
+	var decs []*vC07Dec
+	for _, d := range vC07Decs {
+		if d.sweep == 0 {
+			decs = append(decs, d)
+		}
+	}
+	r := &vRng{s: 12345}
+	for i, d := range decs {
+		f.Add(uint8(i), []byte{})
+		if d.gen != nil {
+			for j := 0; j < 12; j++ {
+				f.Add(uint8(i), d.gen(r))
+			}
+		}
+	}
+	f.Fuzz(func(t *testing.T, sel uint8, data []byte) {
+		d := decs[int(sel)%len(decs)]
+		if len(data) > vC07Max {
+			data = data[:vC07Max]
+		}
+		if o := vC07Exec(d, data, 60*time.Second); o.class >= 2 {
+			t.Fatalf("%s: %s on %x", d.name, o.msg, data)
+		}
+	})
+}
+
 func vC07Drive(t *testing.T, decs []*vC07Dec, helpers []*vC07Helper, fams []*vC07Fam, quickN, thoroughN int) {
+	if vC07Collect {
+		vC07Decs = decs
+		return
+	}
 	k := vNewKit(t, "C07")
 	defer k.close()
-	dr := &vC07Driver{k: k, decs: decs, helpers: helpers, fams: fams, limit: 20 * time.Second}
+	dr := &vC07Driver{k: k, decs: decs, helpers: helpers, fams: fams, limit: 60 * time.Second}
 	if k.replay != nil {
 		dr.replay(*k.replay)
 		return
